@@ -22,8 +22,8 @@ TRUSTED = [
 ASSUMES = ["values are well typed (a conditional field is present iff its flag bit is set)",
            "raw bytes fields do not start with a known constructor id (the library's documented auto-deserialise "
            "would return a parsed object instead)",
-           "vectors of base types and constructors with unsupported field types are outside 'field types the library supports' "
-           "(counted in the evidence)"]
+           "constructors with a field type the library has no code path for are outside 'field types the library supports' "
+           "(counted and sampled in the evidence)"]
 
 TABLE = None
 
@@ -54,7 +54,7 @@ def supported_type(ty):
     if k in ("fixed", "bytes", "string", "bare", "boxed"):
         return True
     if k == "vector":
-        return ty[1][0] in ("bare", "boxed") and (ty[1][0] != "bare" or ty[3])
+        return ty[1][0] in ("fixed", "bytes", "string") or (ty[1][0] in ("bare", "boxed") and (ty[1][0] != "bare" or ty[3]))
     return False
 
 
@@ -192,7 +192,8 @@ def show_py(x):
     """render what TlSchemas.deserialize returned in the driver's format"""
     if isinstance(x, dict):
         t = by_name_lib().get(x.get("@type"))
-        raw = {a["field"] for a in t["args"] if a["type"][0] == "fixed" and a["type"][2] in ("int128", "int256")} if t else None
+        raw = {a["field"] for a in t["args"] if (a["type"][0] == "fixed" and a["type"][2] in ("int128", "int256")) or
+               (a["type"][0] == "vector" and a["type"][1][0] == "fixed" and a["type"][1][2] in ("int128", "int256"))} if t else None
         return "{ " + x.get("@type", "-") + " " + "".join(
             f"{k} {show_field(k, v, raw)} " for k, v in x.items() if k != "@type") + "}"
     if isinstance(x, bool):
@@ -228,6 +229,9 @@ def show_field(k, v, raw=None):
         if is_raw:
             return "x:" + (v or "-")
         return "s:" + (v.encode().hex() or "-")
+    if isinstance(v, list) and any(isinstance(e, str) for e in v):
+        # elements of a vector of int128/int256 (hex str) or of string (str): typed by the field, like a scalar
+        return "[ " + "".join(show_field(k, e, raw) + " " for e in v) + "]"
     return show_py(v)
 
 
